@@ -512,7 +512,7 @@ func RunCase(k *fw.Case, cfg *Config) {
 			}
 			c.EM = em
 		}
-		if !c.Pool && c.IsSelected() {
+		if !c.Pool && (c.IsSelected() || c.Method == MDAG) {
 			if _, seen := lastSel[c.Method]; !seen {
 				lastSelOrder = append(lastSelOrder, c.Method)
 			}
